@@ -3,6 +3,7 @@
 package bclx
 
 import (
+	"encoding/json"
 	"fmt"
 	"strings"
 
@@ -109,10 +110,8 @@ func canonBody(b parser.Body) []CNode {
 				n.Quals = append(n.Quals, canonTag(q))
 			}
 			if s.Description != nil {
+				// a description without words denotes nothing: same as absent
 				n.Desc = Paragraphs(s.Description.Value)
-				if n.Desc == nil {
-					n.Desc = [][]string{}
-				}
 			}
 			n.Body = canonBody(s.Body)
 			out = append(out, n)
@@ -121,7 +120,8 @@ func canonBody(b parser.Body) []CNode {
 		case *parser.Description:
 			d := Paragraphs(s.Value)
 			if d == nil {
-				d = [][]string{}
+				// a description block without any word denotes nothing
+				continue
 			}
 			out = append(out, CNode{Kind: "description", Desc: d})
 		default:
@@ -276,3 +276,63 @@ func InBounds(p errpos.Point, lens []int) bool {
 func NotAfter(a, b errpos.Point) bool {
 	return a.Line < b.Line || (a.Line == b.Line && a.Column <= b.Column)
 }
+
+// DiffTrees returns the class and description of the first difference between two
+// canonical trees, or "" when they are equal.
+func DiffTrees(a, b []CNode, path string) (class, detail string) {
+	if len(a) != len(b) {
+		return "count", fmt.Sprintf("%s: %d statements vs %d", path, len(a), len(b))
+	}
+	for i := range a {
+		x, y := a[i], b[i]
+		p := fmt.Sprintf("%s[%d]", path, i)
+		if x.Kind != y.Kind {
+			return "kind", fmt.Sprintf("%s: %s vs %s", p, x.Kind, y.Kind)
+		}
+		js := func(v any) string { b, _ := jsonMarshal(v); return string(b) }
+		switch x.Kind {
+		case "block":
+			if x.Type != y.Type {
+				return "block.type", fmt.Sprintf("%s: %q vs %q", p, x.Type, y.Type)
+			}
+			if js(x.Tags) != js(y.Tags) {
+				return "block.tags", fmt.Sprintf("%s: %s vs %s", p, js(x.Tags), js(y.Tags))
+			}
+			if js(x.Quals) != js(y.Quals) {
+				return "block.qualifiers", fmt.Sprintf("%s: %s vs %s", p, js(x.Quals), js(y.Quals))
+			}
+			if x.Open != y.Open {
+				return "block.open", fmt.Sprintf("%s: open %v vs %v", p, x.Open, y.Open)
+			}
+			if js(x.Desc) != js(y.Desc) {
+				return "block.description", fmt.Sprintf("%s: %s vs %s", p, js(x.Desc), js(y.Desc))
+			}
+			if js(x.Comment) != js(y.Comment) {
+				return "block.comment", fmt.Sprintf("%s: %s vs %s", p, js(x.Comment), js(y.Comment))
+			}
+			if c, d := DiffTrees(x.Body, y.Body, p+".body"); c != "" {
+				return c, d
+			}
+		case "assign":
+			if x.Key != y.Key {
+				return "assign.key", fmt.Sprintf("%s: %q vs %q", p, x.Key, y.Key)
+			}
+			if x.Append != y.Append {
+				return "assign.operator", fmt.Sprintf("%s: append %v vs %v", p, x.Append, y.Append)
+			}
+			if js(x.Value) != js(y.Value) {
+				return "assign.value", fmt.Sprintf("%s: %s vs %s", p, js(x.Value), js(y.Value))
+			}
+			if js(x.Comment) != js(y.Comment) {
+				return "assign.comment", fmt.Sprintf("%s: %s vs %s", p, js(x.Comment), js(y.Comment))
+			}
+		case "description":
+			if js(x.Desc) != js(y.Desc) {
+				return "description", fmt.Sprintf("%s: %s vs %s", p, js(x.Desc), js(y.Desc))
+			}
+		}
+	}
+	return "", ""
+}
+
+func jsonMarshal(v any) ([]byte, error) { return json.Marshal(v) }
